@@ -1,6 +1,12 @@
 package rules
 
 import (
+	"fmt"
+	"go/constant"
+	"go/types"
+	"sort"
+	"strings"
+
 	ssa "xvc/xssa"
 
 	"xvc/q"
@@ -15,6 +21,7 @@ func init() {
 }
 
 func c20(c *q.Ctx) {
+	respTypeTable(c)
 	const p2p = "kernel/network/p2p::"
 	um := c.Fn(p2p + "Unmarshal")
 	if um != nil {
@@ -69,6 +76,11 @@ func c20(c *q.Ctx) {
 	la.Pairing(map[string]q.PairExempt{})
 	dp := c.Fn(p2p + "(*dispatcher).Dispatch")
 	if dp != nil {
+		// the read lock covers the snapshot of the subscriber set only: handlers run, and are waited for, with the lock
+		// released - a handler that registers its own one-shot subscriber (every request/response exchange does), or a
+		// Register queued behind the reader, would otherwise never get the write lock
+		la.NotHeldAtCalls(dp, "WaitGroup.Wait", "dispatcher.mu", "handlers are awaited outside the subscriber-table lock")
+		la.NotHeldAtCalls(dp, "dispatcher.MaskHandled", "dispatcher.mu", "")
 		c.Guard(dp, q.Cond{Canon: "p2p.(*dispatcher).IsHandled(p0,p1)", Sense: true}, q.ToCall("Subscriber.Match"), q.Opt{})
 		c.Before(dp, q.ToCall("dispatcher.IsHandled"), q.ToCall("Subscriber.Match"), "a repeated message is dropped before any delivery")
 		c.Guard(dp, q.Cond{Canon: "i:Subscriber.Match(*,p1)", Sense: false}, q.ToGoSameIter(), q.Opt{})
@@ -98,4 +110,86 @@ func c20(c *q.Ctx) {
 			c.Effect(mk, q.Eff{Spec: "Buffer.WriteString", Arg: 0, Glob: f, Why: "the de-duplication key distinguishes messages by sender, log id and chain", Rule: "K4"})
 		}
 	}
+}
+
+// respTypeTable (C20): the request -> response type map is evaluated over the whole message-type enumeration: for every
+// type X that has a twin X_RES, GetRespMessageType(X) - the table entry if there is one, X+1 otherwise - is X_RES, and
+// no two requests share a response type. The table is read from the package initialiser, the enumeration from the
+// type-checked protos package.
+func respTypeTable(c *q.Ctx) {
+	const fnName = "kernel/network/p2p::GetRespMessageType"
+	gr := c.Fn(fnName)
+	ini := c.P.Funcs["kernel/network/p2p::init"]
+	var tpkg *types.Package
+	if gr != nil && gr.Signature.Params().Len() == 1 {
+		if nt, ok := gr.Signature.Params().At(0).Type().(*types.Named); ok {
+			tpkg = nt.Obj().Pkg()
+		}
+	}
+	if gr == nil || ini == nil || tpkg == nil {
+		c.Fail("anchor", fnName, "initialiser and message-type enumeration resolve", "-", "not found")
+		return
+	}
+	c.ReturnIs(gr, 0, []string{"g:requestToResponse[p0]", "(1 + p0)"}, "table entry if present, otherwise the next type")
+	// table
+	table := map[int64]int64{}
+	var tmap ssa.Value
+	for _, b := range ini.Blocks {
+		for _, ins := range b.Instrs {
+			if st, ok := ins.(*ssa.Store); ok {
+				if g, ok := st.Addr.(*ssa.Global); ok && g.Name() == "requestToResponse" {
+					tmap = st.Val
+				}
+			}
+		}
+	}
+	for _, b := range ini.Blocks {
+		for _, ins := range b.Instrs {
+			mu, ok := ins.(*ssa.MapUpdate)
+			if !ok || mu.Map != tmap {
+				continue
+			}
+			k, ok1 := q.ConstInt(mu.Key)
+			v, ok2 := q.ConstInt(mu.Value)
+			if ok1 && ok2 {
+				table[k] = v
+			}
+		}
+	}
+	// enumeration
+	names := map[string]int64{}
+	sc := tpkg.Scope()
+	for _, n := range sc.Names() {
+		cst, ok := sc.Lookup(n).(*types.Const)
+		if !ok || !strings.HasPrefix(n, "XuperMessage_") || !strings.HasSuffix(cst.Type().String(), "XuperMessage_MessageType") {
+			continue
+		}
+		if v, ok := constant.Int64Val(cst.Val()); ok {
+			names[strings.TrimPrefix(n, "XuperMessage_")] = v
+		}
+	}
+	n := 0
+	seen := map[int64]string{}
+	var reqs []string
+	for name := range names {
+		if _, ok := names[name+"_RES"]; ok {
+			reqs = append(reqs, name)
+		}
+	}
+	sort.Strings(reqs)
+	for _, name := range reqs {
+		x, want := names[name], names[name+"_RES"]
+		got, ok := table[x]
+		if !ok {
+			got = x + 1
+		}
+		n++
+		c.Sites++
+		c.Check(got == want, "K7", fnName, "response type of "+name+" is "+name+"_RES", "-", fmt.Sprintf("the table and the +1 rule give %d, the enumeration says %d", got, want))
+		if other, dup := seen[got]; dup {
+			c.Fail("K7", fnName, "no two request types share a response type", "-", name+" and "+other+" both map to "+fmt.Sprint(got))
+		}
+		seen[got] = name
+	}
+	c.Floor("K7", fnName, "request types with a _RES twin", n, 5)
 }
